@@ -108,6 +108,10 @@ func c13Step(x *engine.Exec) []engine.Failure {
 	ref := x.Next.Ref.(*rewRef)
 	prev := x.Prev.Snap()
 	switch x.Op.K {
+	case world.KClaim:
+		if x.Prev.Used[ClsGov] > 0 {
+			x.Cnt.Inc("claim.after_weight_change")
+		}
 	case world.KDelegate:
 		if _, ok := prev.FindPos(x.Op.D, x.Op.V, x.Op.Denom); ok {
 			x.Cnt.Inc("arrive.delegate_existing")
@@ -298,10 +302,33 @@ func init() {
 				Step: c13NewcomerStep, SeedStep: true,
 				Required: []string{"newcomer.probed", "newcomer.arrived_on_non_bonded_validator_with_rewards_pending", "newcomer.probed_after_validator_rebonded"},
 			}
-			if tier == "thorough" {
-				return []*engine.Scenario{mk("c13-entitlement", []int{4, 0, 3, 2, 0}, 8), jailed}
+			// "all weights": governance changes an asset's weight between allocations (every validator gets a weight-change
+			// snapshot); the asset is staked on several validators with different reward indices per token
+			wc := mk("c13-weight-change", tierPick(tier, []int{2, 0, 2, 2, 1}, []int{3, 0, 3, 3, 2}), tierPick(tier, 6, 8))
+			// (second seed: the same stake with V0 and V1 swapped, so that whichever operator address sorts first, one seed has the
+			// higher reward index per token on the validator that sorts last)
+			swapped := []world.Op{opDel(0, 1, "aaa", "1000000"), opDel(1, 0, "aaa", "1000000"), opDel(1, 1, "bbb", "500000"), opDel(2, 0, "aaa", "250000"), opDel(2, 1, "aaa", "1"), opBlock(1)}
+			wc.Seeds = [][]world.Op{append(append([]world.Op{}, c13Seed...), opReward(rewardDenom, "1000003"), opBlock(1)),
+				append(swapped, opReward(rewardDenom, "1000003"), opBlock(1))}
+			wc.Ops = func(n *engine.Node) []world.Op {
+				var out []world.Op
+				for _, o := range ops(n) {
+					if o.K == world.KClaim || o.K == world.KBlock || (o.K == world.KReward && o.Denom == rewardDenom) {
+						out = append(out, o)
+					}
+				}
+				if a, ok := n.Snap().Assets["aaa"]; ok {
+					for _, w := range []string{"2", "0.5"} {
+						out = append(out, world.Op{K: world.KGovUpdate, Denom: "aaa", Class: ClsGov, Args: govArgs("authority", w, "0,5", a.TakeRate.String(), "1", 0, false)})
+					}
+				}
+				return out
 			}
-			return []*engine.Scenario{mk("c13-entitlement", []int{3, 0, 2, 2, 0}, 5), jailed}
+			wc.Required = []string{"reward.allocations", "claim.with_positive_entitlement", "claim.after_weight_change"}
+			if tier == "thorough" {
+				return []*engine.Scenario{mk("c13-entitlement", []int{4, 0, 3, 2, 0}, 8), jailed, wc}
+			}
+			return []*engine.Scenario{jailed, wc, mk("c13-entitlement", []int{3, 0, 2, 2, 0}, 5)}
 		},
 		Assumptions: []string{
 			"no value-changing events (take rates 0, no slashes): those are C12's; rewards in the bond denom; weights 1 (aaa) and 2 (bbb) on a shared validator; stakes of 2.5e5..1e6 base units so the 1e-18 index resolution is negligible",
